@@ -887,6 +887,10 @@ pub mod watchdog {
     }
 
     pub fn start(property: String) {
+        if cfg!(miri) {
+            // Miri treats a thread that outlives main as an error, and CPU time is meaningless there
+            return;
+        }
         std::thread::spawn(move || {
             let mut last = TICKS.load(AO::Relaxed);
             let mut cpu_at_change = cpu_seconds();
